@@ -10,4 +10,5 @@ INVARIANT Contiguous
 INVARIANT OnceInOrder
 INVARIANT Released
 INVARIANT FaultsSurface
+INVARIANT ShouldStopReads
 CHECK_DEADLOCK FALSE
